@@ -50,10 +50,19 @@ C20Cases == {[kind |-> "ckm_w", cls |-> c] : c \in {"inside", "edge", "outside",
             {[kind |-> k, cls |-> "inside"] : k \in {"ckm_a", "ew", "thdmrun"}} \cup
             {[kind |-> "run", cls |-> c] : c \in {"inside", "edge"}}
 
+\* C12: routine x scalar x size x eigen/singular-value pattern x basis class
+C12Routines == {"fs_svd", "svd", "reorder_svd", "fs_diagonalize_hermitian", "diagonalize_hermitian",
+                "fs_diagonalize_symmetric", "reorder_diagonalize_symmetric", "diagonalize_symmetric"}
+C12Patterns == {"distinct", "double", "triple", "allequal", "zero", "zero2", "negpair", "hier", "int", "zerorow"}
+C12Cases == {[routine |-> r, scalar |-> sc, n |-> n, pattern |-> p, basis |-> b] :
+               r \in C12Routines, sc \in {"real", "complex"}, n \in 2..4, p \in C12Patterns, b \in {"diag", "perm", "rot"}}
+            \cup {[routine |-> "fs_svd_rc", scalar |-> "real", n |-> n, pattern |-> p, basis |-> b] :
+               n \in 2..4, p \in C12Patterns, b \in {"diag", "perm", "rot"}}
+
 VARIABLE x
 Init == x = 0
 Next == UNCHANGED x
 Spec == Init /\ [][Next]_x
 
-ASSUME JsonSerialize(IOEnv.GEN_OUT, [C18 |-> C18Cases, C06 |-> C06Cases, C07 |-> C07Cases, C15 |-> C15Opts, C16 |-> C16Sets, C19 |-> C19Scheds, C08 |-> C08Cases, C09 |-> C09Cases, C10 |-> C10Cases, C20 |-> C20Cases])
+ASSUME JsonSerialize(IOEnv.GEN_OUT, [C18 |-> C18Cases, C06 |-> C06Cases, C07 |-> C07Cases, C15 |-> C15Opts, C16 |-> C16Sets, C19 |-> C19Scheds, C08 |-> C08Cases, C09 |-> C09Cases, C10 |-> C10Cases, C20 |-> C20Cases, C12 |-> C12Cases])
 =============================================================================
